@@ -11,12 +11,13 @@ PRE = ("From Coq Require Import List NArith ZArith Bool Arith. "
        "From Kyro Require Import Model.TMap Model.Tiered Proofs.TieredProofs. Import ListNotations.")
 
 THEOREMS = {"Properties.C04": ["C04_reads_canonical", "C04_refines_map", "C04_history_latest_write_wins", "C04_drain_audit_neutral",
-                               "C04_api_no_orphan", "C04_orphan_repair_refuted", "C04_nonvacuous"]}
+                               "C04_api_no_orphan", "C04_api_no_stale_mirror", "C04_orphan_repair_refuted", "C04_nonvacuous"]}
 PINS = {"Properties.C04": {
     "_preamble": PRE,
     "C04_reads_canonical": "forall (digest : vec -> dgst), (forall a b : vec, digest a = digest b -> a = b) -> forall (c : config) (s : state) (adm : bool) (id : N) (ids : list N), option_map fst (snd (query digest c s adm id)) = option_map fst (lookup id (cold_docs s)) /\\ snd (get_doc digest c s id) = lookup id (cold_docs s) /\\ snd (get_emb digest c s id) = option_map fst (lookup id (cold_docs s)) /\\ get_meta s id = option_map snd (lookup id (cold_docs s)) /\\ exists_ digest s id = (match lookup id (cold_docs s) with Some _ => true | None => false end) /\\ map strip (snd (bulk digest c s true ids)) = map (fun i => lookup i (cold_docs s)) ids",
     "C04_refines_map": "forall (digest : vec -> dgst) (valid : vec -> bool), (forall a b : vec, digest a = digest b -> a = b) -> forall (c : config) (s : state) (o : op), no_orphan s -> forall k : N, lookup k (cold_docs (fst (step digest valid c s o))) = lookup k (spec_step valid (cold_docs s) o)",
     "C04_history_latest_write_wins": "forall (digest : vec -> dgst) (valid : vec -> bool), (forall a b : vec, digest a = digest b -> a = b) -> forall (c : config) (docs : list (N * vec * meta)) (ops : list op) (s : state), run_guarded digest valid c (init docs) ops = Some s -> forall k : N, lookup k (cold_docs s) = lookup k (fold_left (spec_step valid) ops (cold_docs (init docs)))",
+    "C04_api_no_stale_mirror": "forall (digest : vec -> dgst) (valid : vec -> bool), (forall a b : vec, digest a = digest b -> a = b) -> forall (c : config) (docs : list (N * vec * meta)) (ops : list op), forallb no_hot_poke ops = true -> let s := run digest valid c (init docs) ops in forall (id : N) (h : hent), lookup id (hot s) = Some h -> (exists r, lookup id (cold s) = Some r /\\ h_vec h = c_vec r /\\ h_tok h = (c_ver r, digest (c_vec r))) /\\ canon_state digest s id (h_vec h) (h_tok h) = CMatch",
     "C04_api_no_orphan": "forall (digest : vec -> dgst) (valid : vec -> bool), (forall a b : vec, digest a = digest b -> a = b) -> forall (c : config) (docs : list (N * vec * meta)) (ops : list op) (s : state), run_guarded digest valid c (init docs) ops = Some s -> no_orphan s",
 }}
 
